@@ -8,8 +8,9 @@
    A rewind (SetOffset below the flushed file offset) TRUNCATES the file there (singleapp.SetOffset
    since fix 09014a8; multiapp also removes the chunk files behind the offset and fsyncs the
    directory); the truncation is not fsynced by itself, so at a crash it is undetermined until the
-   next fsync of the file: a crash image may have it applied or not (both are admitted, which also
-   covers the durable removal of whole chunks).  Preallocated files keep their size (no truncation).
+   next fsync of the file: a crash image may have it applied completely, at any larger offset (the
+   later chunk files are gone, the tail of the chunk is not) or not at all — an over-approximation
+   that contains the durable removal of whole chunks.  Preallocated files keep their size (no truncation).
    A reopen takes the size from the file.  This file contains definitions only. *)
 From V Require Export Base.Bytes.
 
